@@ -193,6 +193,10 @@ func newC12Env() *c12Env {
 	tlsstall := startPeer("TS", log, nil, func(p *peer, c net.Conn, idx int) {
 		io.Copy(io.Discard, c)
 	})
+	tlseof := startPeer("TE", log, nil, func(p *peer, c net.Conn, idx int) {
+		buf := make([]byte, 4096)
+		c.Read(buf) // the ClientHello; then the connection is closed
+	})
 	// upstream proxy rejecting CONNECT by target name
 	rej := startPeer("R", log, nil, func(p *peer, c net.Conn, idx int) {
 		br := bufio.NewReader(c)
@@ -220,7 +224,7 @@ func newC12Env() *c12Env {
 			serveRequests(p, &bufConn{Conn: c, r: br}, idx, true, faultResponder)
 		}
 	})
-	env.peers = []*peer{o, ot, a, garbage, untrusted, expired, wrong, rej, oldtls, tlsstall}
+	env.peers = []*peer{o, ot, a, garbage, untrusted, expired, wrong, rej, oldtls, tlsstall, tlseof}
 	mk := func(fc fwdCfg) *fwd {
 		f, err := startFwd(fc)
 		if err != nil {
@@ -237,6 +241,7 @@ func newC12Env() *c12Env {
 		f.mapName("wrongname.test:443", wrong.addr())
 		f.mapName("oldtls.test:443", oldtls.addr())
 		f.mapName("tlsstall.test:443", tlsstall.addr())
+		f.mapName("tlseof.test:443", tlseof.addr())
 		f.mapName(addrA, a.addr())
 		f.mapName("rejproxy.test:3128", rej.addr())
 		f.mu.Lock()
@@ -382,6 +387,8 @@ func (env *c12Env) faultCase(c c12Case, k int, rejf *fwd) map[string]any {
 		host = "oldtls.test"
 	case "tls_stall":
 		host = "tlsstall.test"
+	case "tls_eof":
+		host = "tlseof.test"
 	case "proxy_connect_403":
 		host = "reject403.test"
 	case "proxy_connect_403_body":
